@@ -227,6 +227,7 @@ static Outcome run(tape_t const& tape)
     W.huge = c.huge;
     if (!c.huge) W.seen.reset(new std::atomic<unsigned char>[c.n + 1]());
     for (auto i : c.throwing) W.throwing.insert(i);
+    G().stranded_after_samples = 100;
     Quiescence q;
     q.start();
     G().diagnose = [&] { return "bulk(n=" + std::to_string(c.n) + "): callbacks so far " + std::to_string(W.total_calls()) + ", receiver signals " + std::to_string(W.signals.load()); };
